@@ -1,3 +1,4 @@
+import ctypes
 """Obligations, discharge, vacuity covers, counter-model extraction, replay plumbing."""
 import json, os, subprocess, sys, tempfile, time, traceback, multiprocessing as mp
 from fractions import Fraction
@@ -133,8 +134,18 @@ class Ctx:
         self._cover_cache = {}
 
     # ---- exploration
-    def paths(self, run, pre=(), setup=None, maxpaths=4096, allow_unsupported=False):
+    def paths(self, run, pre=(), setup=None, maxpaths=4096, allow_unsupported=False, expect_loops=False):
         ps = explore(self.repo, run, pre, maxpaths=maxpaths, setup=setup)
+        # every loop contract installed by the clause must have met its loop on some path; otherwise the loop moved or disappeared and
+        # whatever the paths say is not about the contracted code: undecided, and no path is handed to the clause
+        specs, hits = set(), set()
+        for p in ps:
+            specs |= {k for k in getattr(p.ex, 'loopspecs', {}) if k[1] is not None}
+            hits |= p.ex.__dict__.get('spec_hits', set())
+        missing = sorted(specs - hits, key=str)
+        if missing and ps and expect_loops:
+            self.results.append(Obl(f'{self.clause}.loop-contract', 'undecided', detail={'reason': f'loop contract(s) {missing} never met their loop (moved, removed or not reached): the contract must be re-anchored'}))
+            return []
         bad = [p for p in ps if p.kind == 'unsupported']
         if bad and not allow_unsupported:
             for p in bad[:3]:
@@ -635,6 +646,9 @@ def run_clause(args):
             ctx.results.append(Obl(ctx.clause, 'undecided', detail={'reason': 'unsupported: ' + str(u), 'trace': traceback.format_exc()[-1500:]}))
         except SymRaise as r:
             ctx.results.append(Obl(ctx.clause, 'undecided', detail={'reason': f'uncaught symbolic exception {r.cls} {r.msg}', 'trace': traceback.format_exc()[-1500:]}))
+        except (RecursionError, ctypes.ArgumentError) as r:
+            # terms nested too deeply for the solver bindings (e.g. an uncontracted loop unrolled many times): no verdict
+            ctx.results.append(Obl(ctx.clause, 'undecided', detail={'reason': f'term too deep for the solver interface: {type(r).__name__}', 'trace': traceback.format_exc()[-800:]}))
         return {'clause': ctx.clause, 'results': [o.to_json() for o in ctx.results], 'used': list(ctx.repo.used.values()),
                 'solver_time': ctx.solver_time, 'wall': time.time() - t0, 'notes': ctx.notes, 'crash': None}
     except BaseException as e:    # noqa  checker crash -> exit 3 upstream
